@@ -256,6 +256,7 @@ func (v *verifStateView) sameContainers(o *verifStateView) bool {
 //	4: unparsable available cpuset
 //	5: MinBalloons > MaxBalloons in a type, and a different (valid) available cpuset
 //	6: duplicate type names, and a different (valid) reserved cpuset
+//	7: valid but unsatisfiable: 3 pre-created balloons of 4 CPUs on 8 CPUs
 //
 // Unless stated otherwise the available and reserved cpusets are those of the
 // current configuration cur.
@@ -283,9 +284,11 @@ func verifBadConfig(kind int, cur *cfgapi.Config) *cfgapi.Config {
 	case 5:
 		a.MinBalloons, a.MaxBalloons = 2, 1
 		cfg.AvailableResources = cfgapi.Constraints{cfgapi.CPU: "cpuset:0-3"}
-	default:
+	case 6:
 		cfg.BalloonDefs = append(cfg.BalloonDefs, &cfgapi.BalloonDef{Name: "a"})
 		cfg.ReservedResources = cfgapi.Constraints{cfgapi.CPU: "cpuset:1"}
+	default:
+		a.MinCpus, a.MinBalloons = 4, 3
 	}
 	return cfg
 }
@@ -327,26 +330,39 @@ func VerifC13BalloonsReconfigure() {
 		verifAssert("C13.balloons.unchanged-config-keeps-container-resources", before.sameContainers(after))
 		verifAssert("C13.balloons.unchanged-config-keeps-cpu-sets", verifAnd(before.allowed.Equals(after.allowed), before.reserved.Equals(after.reserved)))
 	} else {
-		kind := verifChoice("bad", verifParam("badConfigs", 7))
+		kind := verifChoice("bad", verifParam("badConfigs", 8))
 		err := w.p.Reconfigure(verifBadConfig(kind, cfg))
 		verifCover("reconfigure-rejected")
 		verifAssert("C13.balloons.invalid-config-rejected", err != nil)
 		after := w.stateView()
-		// a rejected update that names another available / reserved cpuset than
-		// the current one is judged under its own label
-		availLabel, reservedLabel := "C13.balloons.rejected-config-keeps-available-cpus", "C13.balloons.rejected-config-keeps-reserved-cpus"
-		if kind == 5 {
-			availLabel += ".update-names-other-cpuset"
-		}
-		if kind == 6 {
-			reservedLabel += ".update-names-other-cpuset"
-		}
-		verifAssert(availLabel, before.allowed.Equals(after.allowed))
-		verifAssert(reservedLabel, before.reserved.Equals(after.reserved))
-		verifAssert("C13.balloons.rejected-config-keeps-free-cpus", before.free.Equals(after.free))
-		verifAssert("C13.balloons.rejected-config-keeps-options", before.options == after.options)
-		verifAssert("C13.balloons.rejected-config-keeps-balloons", before.sameBalloons(after))
+		// Sub-claims judged under their own labels (asserted last: an assertion
+		// that fails on every input of a path ends the path):
+		//  - a rejected update that names another available / reserved cpuset
+		//    than the current one (kinds 5, 6);
+		//  - an update that passes validation and fails while its balloons are
+		//    created (kind 7).
+		sameAllowed, sameReserved := before.allowed.Equals(after.allowed), before.reserved.Equals(after.reserved)
+		sameState := verifAnd(before.free.Equals(after.free), verifAnd(before.options == after.options, before.sameBalloons(after)))
 		verifAssert("C13.balloons.rejected-config-keeps-container-resources", before.sameContainers(after))
+		if kind != 5 {
+			verifAssert("C13.balloons.rejected-config-keeps-available-cpus", sameAllowed)
+		}
+		if kind != 6 {
+			verifAssert("C13.balloons.rejected-config-keeps-reserved-cpus", sameReserved)
+		}
+		if kind != 7 {
+			verifAssert("C13.balloons.rejected-config-keeps-free-cpus", before.free.Equals(after.free))
+			verifAssert("C13.balloons.rejected-config-keeps-options", before.options == after.options)
+			verifAssert("C13.balloons.rejected-config-keeps-balloons", before.sameBalloons(after))
+		}
+		switch kind {
+		case 5:
+			verifAssert("C13.balloons.rejected-config-keeps-available-cpus.update-names-other-cpuset", sameAllowed)
+		case 6:
+			verifAssert("C13.balloons.rejected-config-keeps-reserved-cpus.update-names-other-cpuset", sameReserved)
+		case 7:
+			verifAssert("C13.balloons.rejected-config-keeps-state.update-fails-creating-balloons", sameState)
+		}
 	}
 }
 
@@ -366,6 +382,9 @@ func VerifC04BalloonsMem() {
 	}
 	existing := libmem.NewNodeMask(0, 1)
 	zonesBefore := map[string]libmem.NodeMask{}
+	// judged under its own label, asserted at the end (an assertion that fails on
+	// every input of a path ends the path)
+	softFellBack := true
 	ops := verifParam("ops", 2)
 	for k := 0; k < ops; k++ {
 		if len(w.ctrs) > 0 && verifParam("releases", 1) != 0 && verifChoice("op", 2) == 1 {
@@ -416,9 +435,10 @@ func VerifC04BalloonsMem() {
 			exist = verifAnd(exist, zone.And(existing) == zone)
 		}
 		verifAssert("C04.balloons.mems-equal-assigned-zone", follows)
-		verifAssert("C04.balloons.mems-equal-assigned-zone.realloc-fell-back-to-requested-nodes", followsFallback)
+		softFellBack = verifAnd(softFellBack, followsFallback)
 		verifAssert("C04.balloons.mems-non-empty", nonEmpty)
 		verifAssert("C04.balloons.mems-existing-nodes", exist)
 		verifAssert("C04.balloons.member-holds-assignment", assigned)
 	}
+	verifAssert("C04.balloons.mems-equal-assigned-zone.realloc-fell-back-to-requested-nodes", softFellBack)
 }
